@@ -12,7 +12,7 @@ Definition hex_digit (c : N) : option N :=
 
 Definition is_scalar (c : N) : bool := (c <? 0xD800) || ((0xE000 <=? c) && (c <=? 0x10FFFF)).
 
-(* \u{...}: i counts loop rounds; more than 7 rounds is an error (the code checks `i > 6` before reading) *)
+(* \u{...}: i counts loop rounds; more than 7 rounds (six digits and the closing brace) is an error: the code checks `i > 6` before reading *)
 Fixpoint unescape_u (t : text) (i : nat) (cp : N) : option (N * text) :=
   match i with
   | O => None
@@ -56,7 +56,7 @@ Fixpoint unescape (fuel : nat) (t : text) : option text :=
         else if e =? 117 then                      (* \u{...} *)
           match r2 with
           | 123 :: r3 =>
-            match unescape_u r3 8 0 with
+            match unescape_u r3 7 0 with
             | Some (cp, r4) => match unescape f r4 with Some s => Some (cp :: s) | None => None end
             | None => None
             end
